@@ -18,6 +18,7 @@ CONFIGS = [
     Config(PROP, V, C, ' keep-unique="[ab]+"', 'plain', 'unique', AB),
     Config(PROP, V, C, ' keep-unique="(?P<value>[ab]+)=[cd]"', 'group-suffix', 'unique', AB),
     Config(PROP, V, C, ' keep-unique="z(?P<value>[ab]+)?"', 'group-optional', 'unique', AB),
+    Config(PROP, V, C, ' keep-unique="k=(?P<value>[ab]*)"', 'group-empty', 'unique', AB),
 ]
 SPECS = [(0, 1, 0), (1, 2, 0), (0, 2, 1), (2, 1, 1), (1, 0, 0), (0, 0, 0)]
 BOUNDS = {'quick': dict(nlines=3, per_cfg=160, validate=30), 'thorough': dict(nlines=5, per_cfg=1200, validate=150)}
@@ -25,11 +26,11 @@ BOUNDS = {'quick': dict(nlines=3, per_cfg=160, validate=30), 'thorough': dict(nl
 
 def main(tier):
     return run_main(PROP, tier, CONFIGS, lambda c: SPECS, BOUNDS,
-                    assumptions=['keys over {a,b} (inner blanks in trim form); regex forms k=(?P<value>[ab]+), (?P<value>[ab]+)=[cd], z(?P<value>[ab]+)? and [ab]+ only',
+                    assumptions=['keys over {a,b} (inner blanks in trim form); regex forms k=(?P<value>[ab]+), (?P<value>[ab]+)=[cd], z(?P<value>[ab]+)?, k=(?P<value>[ab]*) (empty keys) and [ab]+ only',
                                  'the regex engine is the reference model mirsym/rexmodel.py, not the regex crate',
                                  'HashSet<&str>::insert is an association-list model forking on key equality',
                                  'tree-sitter / tag scanner replaced as in C10; ASCII only; verdict independent of the modified flags'],
-                    must_cover=['clean', 'reported', 'two violating blocks in one file', 'mode:trim', 'mode:group', 'mode:group-suffix', 'mode:group-optional', 'mode:plain'])
+                    must_cover=['clean', 'reported', 'two violating blocks in one file', 'mode:trim', 'mode:group', 'mode:group-suffix', 'mode:group-optional', 'mode:group-empty', 'mode:plain'])
 
 
 if __name__ == '__main__':
